@@ -307,6 +307,8 @@ def main():
         late = m.get("late", "none") != "none"
         if m["out"] == "dangling":
             os.symlink("elsewhere.bin", out)
+        elif m["out"] == "empty":
+            open(out, "wb").close()
         elif m["out"] != "absent" and late:
             # nothing but the (damaged) archive may provide the chunks: content unrelated to the source
             n_ = {"bd_small": len(source) - 1 - rnd.randint(0, 5000), "bd_equal": len(source), "bd_large": len(source) + 1 + rnd.randint(0, 9000)}.get(m["out"], rnd.randint(1, 2 * len(source)))
